@@ -12,7 +12,7 @@ S2q = ("in", [("z0", [], ["x.cmake"]), ("y1", [], ["x.cmake"])], ["b.cmake"])
 S2b = ("in", [("z0", [], ["n.txt"]), ("y1", [], ["M.CMake", "m.cmake"]), ("x2", [], ["q.cmake"])], ["b.cmake"])
 S3 = ("in", [("d1", [("d2", [("d3", [], ["k.cmake"])], ["j.cmake"])], ["i.cmake"])], ["h.cmake"])
 S4 = ("in", [("mid", [("deep", [], ["k.cmake"])], ["n.txt"])], ["h.cmake"])
-S5 = ("in", [("docs", [], ["old.rst"])], ["h.cmake", "g.cmake"])
+S5 = ("in", [("docs", [], ["old.rst"]), ("docs-old", [], ["l.cmake"])], ["h.cmake", "g.cmake"])      # a sibling whose name starts with the output directory's name
 S6 = ("in", [("Pkg", [], ["one.cmake"]), ("pkg", [], ["two.cmake"])], ["Utils.cmake", "utils.cmake", "alpha.cmake"])     # names differing only in case
 def chain_skel(depth):
     node = ("d%02d" % depth, [], ["m%02d.cmake" % depth])
